@@ -180,6 +180,9 @@ Definition Descends (n : notif) (r : rrdp) : Prop :=
 Definition Agrees (old : option notif) (r : rrdp) : Prop :=
   match old with Some n => n_session n = r_session r -> Descends n r | None => True end.
 
+(** The notification on disk is the one of the state, and what it names is there. *)
+Definition FilesMatch (r : rrdp) (f : fs) : Prop := read_notif f = Some (notif_of r) /\ NotifOk f.
+
 (** ** The client's view of the files *)
 Definition fetch (f : fs) (p : path) (h : fdata) : option fdata :=
   match fs_file p f with Some (CData d) => if fdata_eqb d h then Some d else None | _ => None end.
